@@ -46,6 +46,8 @@ def sample_params(rng, regime):
         zeta = lu(0.1, 10)
         delta = rng.choice([-1, 1]) * lu(1e-9, 1e-3)
         return dict(zeta=zeta, a=a, A=A, b=b, B=max((a * A + delta * (zeta + a + b)) / b, 1e-6))
+    if regime == "hardquad":  # quadrature path whose 127-point sequence runs out without meeting its absolute tolerance
+        return dict(zeta=lu(0.05, 0.5), a=lu(0.3, 3), A=lu(2, 8), b=lu(0.3, 3), B=lu(2, 8))
     raise ValueError(regime)
 
 
@@ -121,6 +123,13 @@ def explore(ctx):
             for r in range(n):
                 reg = regimes[(r + t[0] + t[1] + ctx.seed) % len(regimes)]
                 add(t, un, sample_params(rng, reg), reg)
+    # large powers of r with diffuse ECP primitives a few bohr out: values of order 1..1e4 for which the primitive quadrature uses
+    # all of its 127 points and still reports no convergence (the exhausted exit of the nested sequence); compared with the model
+    # only - their accuracy is what the recorded findings are about
+    hard = [t for t in trip if t[0] + 2 >= 8][-24:]
+    n_main = len(reqs)
+    for t in hard:
+        add(t, 0, sample_params(rng, "hardquad"), "hardquad")
     res = subprocess.run([drv], input="\n".join(reqs) + "\n", stdout=subprocess.PIPE, stderr=subprocess.PIPE, text=True)
     if res.returncode != 0:
         raise RuntimeError("corr_radial crashed: %s" % res.stderr[-500:])
@@ -161,8 +170,8 @@ def explore(ctx):
         corr_bad.append({"what": "model answered %d of %d requests" % (len(model_blocks), len(real_blocks))})
     ctx.obligation("correspondence: Lean radial model = real RadialIntegral, bit for bit (value, estimate, quadrature, base integrals)", not corr_bad, json.dumps(corr_bad[:2]))
     # oracle on a subset
-    n_or = min(len(reqs), 260 if quick else 6000)
-    idx = sorted(rng.sample(range(len(reqs)), n_or))
+    n_or = min(n_main, 260 if quick else 6000)
+    idx = sorted(rng.sample(range(n_main), n_or))
     refs = run_oracle("radial.py", [json.dumps({k: meta[i][k] for k in ("k", "l1", "l2", "zeta", "a", "A", "b", "B")}) for i in idx])
     fails = []
     for i, ref in zip(idx, refs):
